@@ -43,6 +43,7 @@ const (
 	bOtherHash   = "other-hash"   // single-header requests: another (valid, canonical) header
 	bNoClose     = "noclose"      // valid frames but the stream is left open
 	bGap         = "gap"          // valid headers with one height missing in the middle
+	bVerifyPanic = "verify-panic" // a header at position k that decodes and validates but makes the type's Verify panic
 )
 
 // behaviour is one peer's reaction, optionally limited to its first N requests (then honest).
@@ -128,6 +129,11 @@ func respond(chain *vh.Chain, b behaviour, r simnet.Request) simnet.Reply {
 		}
 		hs := append([]*vh.Header(nil), honest...)
 		hs[pos] = chain.Variant(vh.VForgedRightLink, hs[pos].Height(), uint64(r.Seq))
+		rep.Responses = okFrames(hs)
+	case bVerifyPanic:
+		pos := min(max(k, 0), len(honest)-1)
+		hs := append([]*vh.Header(nil), honest...)
+		hs[pos] = chain.Variant(vh.VVerifyPanic, hs[pos].Height(), 0)
 		rep.Responses = okFrames(hs)
 	case bWrongChain:
 		hs := append([]*vh.Header(nil), honest...)
